@@ -181,12 +181,13 @@ end
 
 /-! ## Program level -/
 
-/-- A global: constant, well-typed outside of any function, not a redefinition. -/
+/-- A global: constant, well-typed outside of any function, not a redefinition, not named like
+a function of the module. -/
 inductive GlobalsOK : List (String × Ty) → List (String × Ty) → List PGlobal → List (String × Ty) → List Ty → Prop where
   | nil {fns vars} : GlobalsOK fns vars [] vars []
   | cons {fns vars g rest t x l vt vars' l'} :
       HasType { vars := vars, fns := fns, ret := none, inLoop := false } false g.e t x true l →
-      LetTy g.ann t vt → lookupTy g.name vars = none →
+      LetTy g.ann t vt → lookupTy g.name vars = none → lookupTy g.name fns = none →
       GlobalsOK fns ((g.name, vt) :: vars) rest vars' l' →
       GlobalsOK fns vars (g :: rest) vars' (vt :: l ++ l')
 
@@ -215,11 +216,17 @@ def distinctFnNames (seen : List String) : List PFn → Bool
   | [] => true
   | f :: rest => !seen.contains f.name && distinctFnNames (f.name :: seen) rest
 
+/-- no function takes a name of the root scope (the values the host provides; imports are
+outside of the model) -/
+def fnNamesFree (root : List (String × Ty)) (fs : List PFn) : Bool :=
+  fs.all fun f => (lookupTy f.name root).isNone
+
 /-- `ProgOK p tys`: the program is well-typed (the host requires `main`) and `tys` are the
 types to be recorded for it. -/
 inductive ProgOK (p : PProg) : List Ty → Prop where
   | mk {vars lg lf} :
       distinctFnNames [] p.fns = true →
+      fnNamesFree hostScope p.fns = true →
       GlobalsOK (p.fns.map fun f => (f.name, fnSig f)) hostScope p.globals vars lg →
       FnsOK (p.fns.map fun f => (f.name, fnSig f)) vars p.fns lf →
       p.fns.any (fun f => f.name == "main") = true →
